@@ -606,3 +606,53 @@ func ruleNoVerdictOnExactness(c *Ctx) {
 	}
 	c.R.Floor(rule, "conversions of an exact number to a float in the evaluator", n, 1)
 }
+
+func init() {
+	for _, pid := range []string{"C17", "C03"} {
+		pid := pid
+		Properties[pid].Rules = append(Properties[pid].Rules, Rule{pid + "/fragment-classified-as-looked-up", func(c *Ctx) { ruleFragmentClassified(c, pid+"/fragment-classified-as-looked-up") }})
+	}
+}
+
+// Whether a fragment is a JSON Pointer or an anchor name is decided on the very string that is then looked up in
+// the anchor table or walked as a pointer: the decoded fragment. (Deciding on the escaped form sends "#%2F$defs%2Fa",
+// a legal spelling of the pointer /$defs/a, to the anchor table.)
+func ruleFragmentClassified(c *Ctx, rule string) {
+	n := 0
+	for _, fn := range c.Closure(rule, "RES").Minus(c.Closure(rule, "EV")).Sorted() {
+		if !c.P.InPkg(fn) {
+			continue
+		}
+		core.EachInstr(fn, func(i ssa.Instruction) {
+			lk, ok := i.(*ssa.Lookup)
+			if !ok {
+				return
+			}
+			mt, isMap := lk.X.Type().Underlying().(*types.Map)
+			if !isMap || !c.isPkgNamed(mt.Elem(), "anchorInfo") || !tString(lk.Index.Type()) {
+				return
+			}
+			for _, g := range guardsOf(lk) {
+				cond := g.Cond
+				for {
+					if u, ok := cond.(*ssa.UnOp); ok && u.Op == token.NOT {
+						cond = u.X
+						continue
+					}
+					break
+				}
+				call, ok := cond.(*ssa.Call)
+				if !ok || core.CalleeKey(&call.Call) != "strings.HasPrefix" || len(call.Call.Args) != 2 {
+					continue
+				}
+				if s, isStr := constString(call.Call.Args[1]); !isStr || s != "/" {
+					continue
+				}
+				n++
+				same := sharesSource(call.Call.Args[0], lk.Index)
+				c.R.Check(same, rule, fmt.Sprintf("%s:pointer-or-anchor#%d", core.FuncName(fn), n), c.pos(call), "the pointer-or-anchor decision is made on the string that is looked up", "whether the fragment is a JSON Pointer is decided on another string than the one looked up in the anchor table (its escaped form, say): a pointer whose leading slash is written %2F is taken for an anchor name, so the $ref fails, or reaches whatever schema happens to carry that text as $anchor")
+			}
+		})
+	}
+	c.R.Floor(rule, "pointer-or-anchor decisions guarding an anchor lookup", n, 1)
+}
